@@ -2,6 +2,8 @@ use crate::engine::{ReplayEntry, Run};
 
 pub mod c01;
 pub mod c03;
+pub mod c05;
+pub mod c08;
 pub mod c09;
 pub mod c10;
 pub mod c11;
@@ -18,6 +20,8 @@ pub fn all() -> Vec<Property> {
     vec![
         Property { id: "C01", run: c01::run, replays: c01::replays },
         Property { id: "C03", run: c03::run, replays: c03::replays },
+        Property { id: "C05", run: c05::run, replays: c05::replays },
+        Property { id: "C08", run: c08::run, replays: c08::replays },
         Property { id: "C09", run: c09::run, replays: c09::replays },
         Property { id: "C10", run: c10::run, replays: c10::replays },
         Property { id: "C11", run: c11::run, replays: c11::replays },
